@@ -19,13 +19,16 @@ THOROUGH_SHARDS = 8
 def _events(n, rng):
     from soundevent import data
 
-    rec = data.Recording(path="r.wav", duration=100.0, channels=1, samplerate=8000,
-                         uuid=uuid.UUID(int=rng.getrandbits(128)))
+    # the property is about ANY list of sound events: they need not share a recording (cross-recording linking of
+    # simultaneous events on several recorders is a use of this function), nor have features, nor be distinct in content
+    recs = [data.Recording(path=f"r{k}.wav", duration=100.0, channels=1, samplerate=rng.choice([8000, 44100]), uuid=uuid.UUID(int=rng.getrandbits(128)))
+            for k in range(rng.choice([1, 1, 2, 3]))]
+    feats = [[], [], [data.Feature(term=data.term_from_key("duration"), value=0.5)]]
     geoms_ = [lambda i: data.TimeInterval(coordinates=[i, i + 0.5]), lambda i: None, lambda i: data.Point(coordinates=[i, 1000.0]),
               lambda i: data.TimeInterval(coordinates=[i, i + 0.5]), lambda i: data.BoundingBox(coordinates=[i, 10.0, i + 1.0, 20.0])]
     # a sound event may legally have no geometry: it is still an input event
     return [
-        data.SoundEvent(uuid=uuid.UUID(int=rng.getrandbits(128)), recording=rec, geometry=rng.choice(geoms_)(i))
+        data.SoundEvent(uuid=uuid.UUID(int=rng.getrandbits(128)), recording=rng.choice(recs), geometry=rng.choice(geoms_)(i if rng.random() < 0.8 else 0), features=rng.choice(feats))
         for i in range(n)
     ]
 
